@@ -202,6 +202,10 @@ def unit_file_arith(ctx):
                 len(e.S.lines), e.S.n_divlemmas, len(e.ex.panics), e.S.logic())))
         obs = fo.obligations(encs)
         vectors, problems = fo.validation_vectors(out)
+        if ctx.tier == "quick":
+            # the native build of emit_file dominates this unit: validate against a spread of fewer vectors in quick
+            for k in list(vectors):
+                vectors[k] = vectors[k][::3][:9] if k.startswith("roll_") else vectors[k][:3]
         validations = _validate_all(ctx, u, encs, vectors, problems)
         driver.decide_all(ctx, obs, validations, u.dir, lambda ob: nat)
     except (engine.EngineError, Unsupported, Inconclusive) as e:
@@ -243,7 +247,8 @@ def unit_file_onbatch(ctx):
         P.add_dump(mir, "emit_file")
         A = fc.build(P)
         _log(ctx, "on_batch abstraction: %s; %d SMT lines" % (A.stats(), len(A.S.lines)))
-        obs = [o for o in fc.obligations(P, A, native_for) if o.name.startswith(pref)]
+        obs = fc.obligations(P, A, native_for) + [fc.r3_obligation(P, A)]
+        obs = [o for o in obs if o.name.startswith(pref)]
         cfg_driver.decide_cfg(ctx, obs, u.dir, jobs=_jobs())
     except (engine.EngineError, Unsupported, Inconclusive) as e:
         _cfg_fail(ctx, "E2cfg_file_onbatch", "E2-cfg file unit: %s" % e)
